@@ -252,8 +252,12 @@ class Imager:
             w.probes['crash_between_move_and_record'] += 1
         if label.startswith(('move.blob', 'move.file', 'move.sendfile', 'move.unlink', 'move.chmod', 'move.utime')):
             w.probes['crash_inside_cross_device_copy'] += 1
-        key = (fingerprint(w.dir), w.model.acked, w.model.uncertain, tuple(i.brief() for i in inflight))
-        if key == self.last:
+        from worlds import store_io as sio
+
+        # no clock, no mtime: the wrappers themselves know whether a disk-changing step ran since the last image
+        dirty, sio.S.dirty = sio.S.dirty, False
+        key = (w.model.acked, w.model.uncertain, tuple(i.brief() for i in inflight))
+        if not dirty and key == self.last:
             w.probes['crash_point_same_image_as_previous'] += 1
             return
         self.last = key
